@@ -117,6 +117,7 @@ def parseEv : List String → Option Ev
   -- environment of the trace that the model leaves free (Fit answers) or does not time (Close)
   | ["parallel", _] => some .nop
   | ["gpumem", _] => some .nop
+  | ["sysmem", _] => some .nop           -- scripted free system memory for cpu configurations (a Fit answer's input)
   | ["closedelay", _] => some .nop
   | ["closefail", _, _] => some .nop     -- the mock's Close returns an error from now on: the scheduler ignores it
   | ["envspell", _] => some .nop         -- spelling of the OLLAMA_* values the driver writes (first event only); values = header
